@@ -1,5 +1,5 @@
-CONSTANTS Alphabet <- AQuick
- MaxLen = 4
+CONSTANTS Families = {"gen"}
+ Family <- QuickFamily
  MaxSects = 2
  MaxDepth = 2
  Fixed = {}
